@@ -1,9 +1,10 @@
 //! Exhaustive stand-in for C27 over a fixed stream: three PDUs (A-RELEASE-RQ, P-DATA with 5 bytes,
 //! A-ABORT) are written with the real `write_pdu`; the byte stream is handed to the real
 //! `read_pdu_from_wire` in EVERY segmentation with at most 3 cut points (each read returns one segment),
-//! and the PDUs received by successive calls must be exactly the three PDUs, in order, then end of stream.
+//! and the PDUs received by successive calls must be exactly the three PDUs, in order, then end of stream; the same
+//! segmentations through the asynchronous `read_pdu_from_wire_async` from a transport that answers "not ready" before every segment.
 use bytes::BytesMut;
-use dicom_ul::association::read_pdu_from_wire;
+use dicom_ul::association::{read_pdu_from_wire, read_pdu_from_wire_async};
 use dicom_ul::pdu::{write_pdu, AbortRQSource, PDataValue, PDataValueType, Pdu, MAXIMUM_PDU_SIZE};
 use std::io::Read;
 
@@ -16,6 +17,21 @@ impl Read for Segmented {
         buf[..n].copy_from_slice(&self.data[self.pos..self.pos + n]);
         self.pos += n;
         Ok(n)
+    }
+}
+
+struct AsyncSegmented { data: Vec<u8>, cuts: Vec<usize>, pos: usize, ready: bool }
+impl tokio::io::AsyncRead for AsyncSegmented {
+    fn poll_read(mut self: std::pin::Pin<&mut Self>, cx: &mut std::task::Context<'_>, buf: &mut tokio::io::ReadBuf<'_>) -> std::task::Poll<std::io::Result<()>> {
+        if self.pos >= self.data.len() { return std::task::Poll::Ready(Ok(())); }
+        if !self.ready { self.ready = true; cx.waker().wake_by_ref(); return std::task::Poll::Pending; }
+        self.ready = false;
+        let next = self.cuts.iter().copied().find(|c| *c > self.pos).unwrap_or(self.data.len());
+        let n = (next - self.pos).min(buf.remaining());
+        let (a, b) = (self.pos, self.pos + n);
+        buf.put_slice(&self.data[a..b]);
+        self.pos = b;
+        std::task::Poll::Ready(Ok(()))
     }
 }
 
@@ -48,5 +64,33 @@ fn main() {
     };
     run(vec![]);
     for a in 1..n { run(vec![a]); for b in (a + 1)..n { run(vec![a, b]); for c in (b + 1)..n { run(vec![a, b, c]); } } }
+    // the ASYNCHRONOUS receiver on the same segmentations, the transport answering "not ready" before every segment
+    let rt = tokio::runtime::Builder::new_current_thread().enable_all().build().expect("runtime");
+    let mut run_async = |cuts: Vec<usize>| {
+        cases += 1;
+        let mut r = AsyncSegmented { data: stream.clone(), cuts: cuts.clone(), pos: 0, ready: false };
+        let mut buffer = BytesMut::new();
+        let got: Vec<Pdu> = rt.block_on(async {
+            let mut got = Vec::new();
+            for _ in 0..pdus.len() {
+                match tokio::time::timeout(std::time::Duration::from_secs(20), read_pdu_from_wire_async(&mut r, &mut buffer, MAXIMUM_PDU_SIZE, true)).await {
+                    Ok(Ok(p)) => got.push(p),
+                    Ok(Err(e)) => { got.push(Pdu::Unknown { pdu_type: 0xEE, data: format!("{}", e).into_bytes() }); break; }
+                    Err(_) => { got.push(Pdu::Unknown { pdu_type: 0xEF, data: b"timed out".to_vec() }); break; }
+                }
+            }
+            got
+        });
+        let tail_ok = got.len() == pdus.len() && r.pos == stream.len() && buffer.is_empty();
+        if got != pdus || !tail_ok {
+            bad += 1;
+            if bad <= 6 {
+                let kinds: Vec<String> = got.iter().map(|p| if let Pdu::Unknown { pdu_type: 0xEE | 0xEF, data } = p { format!("error: {}", String::from_utf8_lossy(data)) } else { p.short_description().to_string() }).collect();
+                println!("WITNESS unit=C27.segmentations asynchronous receiver, stream={} bytes, cut points={:?}: received {:?} ({} bytes left in the buffer), expected the three PDUs in order and nothing left", n, cuts, kinds, buffer.len());
+            }
+        }
+    };
+    run_async(vec![]);
+    for a in 1..n { run_async(vec![a]); for b in (a + 1)..n { run_async(vec![a, b]); for c in (b + 1)..n { run_async(vec![a, b, c]); } } }
     println!("EXHAUSTIVE unit=C27.segmentations cases={} stream_bytes={} mismatches={}", cases, n, bad);
 }
